@@ -38,6 +38,9 @@ def work(job):
         return [{"sg": sg, "skip": "no crystal generated", "letters": letters}]
     rng = rng_for("sym-present", sg, stream, letters)
     out = []
+    analyzers = []
+    GETTERS = ["get_material_id", "get_wyckoff_letters_original", "get_primitive_system", "get_conventional_system",
+               "get_equivalent_atoms_primitive", "get_has_free_wyckoff_parameters", "get_wyckoff_sets_conventional", "get_space_group_number"]
     for j in range(npres):
         if j == 0:
             at, pres = c["atoms"], {"p_index": 0, "as_generated": True}
@@ -49,7 +52,12 @@ def work(job):
             if crystals.spg_number(at, crystals.TOL) != sg or len(at) > 4 * max_atoms:
                 r["skip"] = "presentation not confirmed by the independent search"
             else:
-                r.update(symrun.observe(at, with_params=mode in ("C08", "all")))
+                # histories: every second presentation goes to the analyzer object that analysed the previous one
+                # (set_system), and the getters are called in a shuffled order first
+                reuse = analyzers[-1] if (j % 2 == 1 and analyzers) else None
+                order = [GETTERS[i] for i in rng.permutation(len(GETTERS))[: 3]] if j >= 1 else None
+                r["history"] = {"reused": reuse is not None, "order": order or []}
+                r.update(symrun.observe(at, with_params=mode in ("C08", "all"), reuse=reuse, keep=analyzers, order=order))
                 if mode in ("C05", "all"):
                     h = symrun.congruence_hint(r, holo(r["bravais"]))
                     r["hint_ok"] = h is not None
